@@ -17,7 +17,7 @@ const ruleC18 = "generated path ASTs, each rendered canonically and in 2..6 rand
 	"Non-trivial: the spellings differ from the canonical text and the path has a bracket or filter. Distinct = distinct (set of spellings, document, mode)."
 
 func drawC18(rt *rapid.T) *Case {
-	g := gen.NewG(rt, gen.PathOpts{Funcs: true, RootOmit: false, FuncPct: 25, ReuseFuncs: true})
+	g := gen.NewG(rt, gen.PathOpts{Funcs: true, RootOmit: false, FuncPct: 25, ReuseFuncs: true, LongPaths: true})
 	p := g.Path()
 	canonical := gen.Render(p, gen.Canon)
 	c := &Case{Path: canonical.Text, AST: p, Texts: canonical.Steps, Doc: g.Doc(p), UseNumber: rapid.Bool().Draw(rt, "usenumber"), Funcs: true}
